@@ -252,7 +252,7 @@ pub fn run(tier: &str) -> i32 {
             alpha,
             oracle: C05 { malformed: malformed_set(net) },
         };
-        let e = explore(&m, &Limits::new(2, if quick { 55 } else { 6000 }));
+        let e = explore(&m, &Limits::new(2, if quick { 300 } else { 6000 }));
         rep.absorb(
             &format!("LEDGER net={} theta={} n={} D={:?} bodies={:?} special<={} budgets={:?}", net, theta, n, diffs, bodies, sp, budgets),
             e,
